@@ -54,12 +54,31 @@ struct Strings {
 /// every ordered pair over a small hostile set (line endings, quotes, comment markers)
 const PAIR_CHARS: [char; 10] = ['\r', '\n', '\\', '"', '/', '*', ' ', 'a', '\t', '\u{85}'];
 
+/// 30 assignments (well over a hundred tokens) in front of a literal; `word`, if given, is first used as an identifier
+fn long_prefix(word: Option<&str>) -> String {
+    let mut s = String::new();
+    if let Some(w) = word {
+        s.push_str(&format!("{} = 7; {} + 1; ", w, w));
+    }
+    for k in 0..30 {
+        s.push_str(&format!("p{} = {}; ", k, k));
+    }
+    s
+}
+
 fn check_string(out: &mut Out, t: &str, r: &mut Rng, embeddings: bool) {
     let q = quote(t);
     out.begin(|| q.clone());
     out.nontrivial(&q);
     let want = RV::Str(t.to_string());
     expect_value(out, "string/round-trip", &q, &want);
+    if t.chars().any(|c| c == ' ' || c == '\t' || c == '\n') {
+        // blanks inside a literal are text: the same literal with every blank doubled, evaluated right afterwards,
+        // denotes the longer text
+        let t2: String = t.chars().flat_map(|c| if c == ' ' || c == '\t' || c == '\n' { vec![c, c] } else { vec![c] }).collect();
+        expect_value(out, "string/round-trip", &quote(&t2), &RV::Str(t2.clone()));
+        expect_value(out, "string/round-trip", &q, &want);
+    }
     out.sample(|| format!("eval({:?}) == String({:?})", q, t));
     if embeddings {
         // next to other tokens without spaces, next to comments, inside a call, concatenated
@@ -74,7 +93,12 @@ fn check_string(out: &mut Out, t: &str, r: &mut Rng, embeddings: bool) {
         // string prefixes in this language)
         let name = *r.pick(&["r", "b", "f", "u8", "rb", "br", "c", "R", "id"]);
         expect_tree(out, "string/prefixed-by-identifier", &format!("{}{}", name, q), &Ast::Call(name.to_string(), Box::new(Ast::Const(want.clone()))));
-        out.count("strings embedded 6 ways");
+        // directly after a word that could begin a number, with a sign in between: still that text
+        let b = |o: &'static str, l: Ast, rr: Ast| Ast::Bin(o, Box::new(l), Box::new(rr));
+        expect_tree(out, "string/embedded", &format!("1e+{}", q), &b("+", Ast::Read("1e".into()), Ast::Const(want.clone())));
+        expect_tree(out, "string/embedded", &format!("2.5E-{}", q), &b("-", Ast::Read("2.5E".into()), Ast::Const(want.clone())));
+        expect_value(out, "string/embedded", &format!("{}{}", long_prefix(None), q), &want);
+        out.count("strings embedded 9 ways");
     }
 }
 
@@ -192,6 +216,9 @@ fn check_int(out: &mut Out, n: i64, r: &mut Rng) {
     expect_tree(out, "int/embedded", &format!("0x{:x}-3", n), &b("-", c(want.clone()), c(RV::Int(3))));
     expect_tree(out, "int/embedded", &format!("a-{}+2", dec), &b("+", b("-", Ast::Read("a".into()), c(want.clone())), c(RV::Int(2))));
     expect_tree(out, "int/embedded", &format!("({})", dec), &c(want.clone()));
+    // at the end of a long program
+    expect_value(out, "int/embedded", &format!("{}{}", long_prefix(None), dec), &want);
+    expect_value(out, "int/embedded", &format!("{}0x{:x}", long_prefix(Some("0x")), n), &want);
     out.sample(|| format!("{} / 0x{:x} / 0x{:X} all denote Int({})", dec, n, n, n));
 }
 
@@ -291,6 +318,10 @@ fn check_float(out: &mut Out, x: f64) {
         expect_tree(out, "float/embedded", &format!("a-{}+2", s), &b("+", b("-", Ast::Read("a".into()), c(want.clone())), c(RV::Int(2))));
         expect_tree(out, "float/embedded", &format!("({})", s), &c(want.clone()));
         expect_tree(out, "float/embedded", &format!("{}-{}", s, s), &b("-", c(want.clone()), c(want.clone())));
+        // at the end of a long program in which the literal's own `<mantissa>e` head was used as an identifier before
+        let head = s.find(|ch| ch == 'e' || ch == 'E').map(|p| &s[..=p]);
+        let head = head.filter(|h| matches!(classify_word(h), WordClass::MantissaE | WordClass::Ident));
+        expect_value(out, "float/embedded", &format!("{}{}", long_prefix(head), s), &want);
     }
     out.count_n("float renderings", rs.len() as u64);
     out.sample(|| format!("{:?} all denote Float({:?})", rs, x));
@@ -335,6 +366,8 @@ const WORD_CHARS: [char; 52] = [
     'x', 'X', 'ä', 'ß', '日', 'λ', 'é', '\u{301}', '😀', 'i', 'n', 'f', 't', 'r', 'u', '`', '\\',
 ];
 
+const DIGITISH: [char; 22] = [':', '?', '@', '.', '_', 'e', 'E', 'x', 'a', 'f', '\'', '$', '#', '٣', '１', '²', '½', '〇', '०', '\u{200b}', 'o', 'b'];
+
 fn check_word(out: &mut Out, w: &str) {
     if w.is_empty() || !w.chars().all(is_word_char) {
         return;
@@ -375,8 +408,14 @@ impl Phase for Words {
             let w = self.fixed[idx as usize].clone();
             check_word(out, &w);
         } else {
-            let n = r.range(1, 8);
-            let w: String = (0..n).map(|_| *r.pick(&WORD_CHARS)).collect();
+            let w: String = if r.chance(1, 2) {
+                let n = r.range(1, 8);
+                (0..n).map(|_| *r.pick(&WORD_CHARS)).collect()
+            } else {
+                // mostly digits, with their ASCII and Unicode neighbours, up to 20 characters
+                let n = r.range(1, 20);
+                (0..n).map(|_| if r.chance(3, 4) { *r.pick(&['0', '1', '2', '7', '8', '9']) } else { *r.pick(&DIGITISH) }).collect()
+            };
             check_word(out, &w);
         }
     }
@@ -454,7 +493,8 @@ pub fn phases(cfg: &Cfg) -> Vec<Box<dyn Phase>> {
         "1.2.3", "truex", "True", "TRUE", "False", "e5", "E5", "_1", "1_000", "1e5x", "x1e5", ".e5", "1e1.5", "1f", "0x1.8", "५", "١٢٣",
         "a.b", "a::b", "math::pi", "$x", "@y", "x'", "q?", "~z", "[a]", "{b}", "#c", "été", "日本語", "λ", "tru", "fals", "nul", "i64", "1st",
         "0e", "00x1", "x0x", "e", "E", "e+", ".", "..", "._", "1..2", "a\u{200b}b", "\u{200b}", "x\u{feff}", "a\u{ad}b", "a\u{2060}b", "“a”", "１２", "1\u{200b}2",
-        "ī", "н", "нx", "ȫ", "ш", "a١", "0x0x10", "0x0X1", "0x0x", "00x10", "0xx1", "0x_1", "0x1_", "0b101", "0o17", "1x0", "x0x1", "0x1p3", "0x1.0", "1e1e1", "1ee1",
+        "ī", "н", "нx", "ȫ", "ш", "a١", "0x0x10", "0x0X1", "0x0x", "00x10", "0xx1", "0x_1", "0x1_", "0b101", "0o17", "1x0", "x0x1", "0x1p3", "0x1.0", "1e1e1", "1ee1", "12:30:45", "0000000?", "1234567:", "00000000:", "2024:01:01", "99999999?", "1:2", "12345678@",
+        "١_٠٠٠", "１_０", "²_²", "1_000_000", "1_0", "1__0", "_1_", "1'000", "1٠", "٣.٥", "1e٣",
     ]
     .iter()
     .map(|s| s.to_string())
